@@ -213,11 +213,12 @@ func dateSpecs(thorough bool) []spec {
 
 func specs(c *runner.Ctx) []spec {
 	th := c.Thorough()
+	// string lengths: the quick tier runs what used to be the thorough lengths, the thorough tier one symbol more
 	n := func(q, t int) int {
 		if th {
-			return t
+			return t + 1
 		}
-		return q
+		return t
 	}
 	var out []spec
 	numAlpha := []string{"0", "1", "9", ".", "-", "+", "x", "e", " "}
